@@ -96,8 +96,14 @@ def native_plan(tier):
 
 def prepare_crate():
     """aggcheck instantiated against $VERIF_REPO with the freshly extracted percentile index statements"""
-    ext, fn_text, expand_s = extract_p_index_statement()
     crate = kani.instantiate('aggcheck')
+    try:
+        ext, fn_text, expand_s = extract_p_index_statement()
+    except LostAnchor as ex:
+        # the index computation cannot be isolated any more (percentile was restructured): the complete index obligation is
+        # skipped (reported as inconclusive unless the end-to-end contracts demonstrate a violation); everything else still runs
+        ext = {'kept': [], 'index_expr': '0', 'dropped': [], 'lost_anchor': str(ex)}
+        expand_s = 0.0
     with open(os.path.join(crate, 'src', 'p_index_extracted.rs'), 'w') as f:
         f.write(P_INDEX_TEMPLATE % ('\n'.join('   ' + k for k in ext['kept']), ext['index_expr']))
     return crate, ext, expand_s
@@ -112,6 +118,10 @@ def run_unit(tier, only_prefix=None):
     out['expand_s'] = expand_s
     out['crate'] = crate
     hs = list(KANI_QUICK) + (KANI_THOROUGH if tier == 'thorough' else [])
+    if ext.get('lost_anchor'):
+        hs = [h for h in hs if not h.startswith('percentile_index')]
+        if not only_prefix:
+            out['inconclusive'].append('percentile index obligation skipped: ' + ext['lost_anchor'])
     plan = native_plan(tier)
     if only_prefix:
         hs = [h for h in hs if h.startswith(only_prefix)]
